@@ -351,8 +351,8 @@ func (g *Gen) Next(o Obs) (Op, bool) {
 		return op, true
 	}
 	// one save that rewrites more than 12 sectors in a single flush (the
-	// sampled, non-exhaustive crash-state family), in every third sequence
-	if !g.huge && g.seqNo%3 == 0 && g.emitted*3 > g.nops {
+	// sampled, non-exhaustive crash-state family), in every fourth sequence
+	if !g.huge && g.seqNo%4 == 0 && g.emitted*3 > g.nops {
 		g.huge = true
 		op := Op{Kind: "save", Note: "huge"}
 		op.Ents = append(op.Ents, g.nextEntry(g.payload(4080+g.r.Intn(21))), g.nextEntry(g.payload(2500+g.r.Intn(600))))
